@@ -23,7 +23,7 @@ import numpy as np
 from mc import catalog
 
 ARITH = 1e-10
-SYSTEMS = {"2x2": (2, 2), "2x3": (2, 3)}
+SYSTEMS = {"2x2": (2, 2), "2x3": (2, 3), "3x2": (3, 2)}  # "3x2" = the 2x3 catalogue with the two parties exchanged
 
 
 # ------------------------------------------------------------------------------------------------ small linear algebra
@@ -75,6 +75,8 @@ def _e(d, k):
 
 def ket_catalogue(system: str) -> dict:
     """name -> 1-D complex unit vector on C^da (x) C^db (first factor = party 0)."""
+    if system == "3x2":
+        return {k: swap_parties(v, 2, 3) for k, v in ket_catalogue("2x3").items()}
     da, db = SYSTEMS[system]
     s = 1 / np.sqrt(2)
     kA, kB = catalog.kets(da), catalog.kets(db)
@@ -105,6 +107,11 @@ def ket_catalogue(system: str) -> dict:
     for k in range(catalog.G):
         out[f"g{k}"] = catalog.generic_ket(da * db, k)
     return {k: np.asarray(v, dtype=complex) for k, v in out.items()}
+
+
+def swap_parties(v, da, db):
+    """|a>|b> -> |b>|a> on a ket of C^da (x) C^db (result lives on C^db (x) C^da)."""
+    return np.asarray(v).reshape(da, db).T.reshape(-1).copy()
 
 
 def mixed_catalogue(system: str) -> dict:
@@ -199,7 +206,7 @@ def locc_lower(rhos, w, da, db):
 def _solve(problem) -> bool:
     import cvxpy as cp
 
-    for solver, kw in ((cp.CLARABEL, {}), (cp.SCS, {"eps": 1e-9, "max_iters": 50000})):
+    for solver, kw in ((cp.CLARABEL, {"max_threads": 1}), (cp.SCS, {"eps": 1e-9, "max_iters": 50000})):  # Clarabel defaults to one thread per core
         try:
             problem.solve(solver=solver, **kw)
         except Exception:  # noqa: BLE001 - a solver failure only means: try the next one / no bracket
@@ -215,15 +222,15 @@ def success(rhos, w, ms) -> float:
 
 def global_bracket(rhos, w):
     """Certified [L, U] for max sum_i w_i Tr(rho_i M_i) over all POVMs; None on solver failure."""
-    import cvxpy as cp
-
     n, d = len(rhos), rhos[0].shape[0]
     if n == 2:
         v = 0.5 * (1.0 + _trace_norm_h(w[0] * rhos[0] - w[1] * rhos[1]))
         return v - ARITH, v + ARITH
-    mv = [cp.Variable((d, d), hermitian=True) for _ in range(n)]
-    prim = cp.Problem(cp.Maximize(sum(float(w[i]) * cp.real(cp.trace(rhos[i] @ mv[i])) for i in range(n))),
-                      [m >> 0 for m in mv] + [sum(mv) == np.eye(d)])
+    da = 2 if d % 2 == 0 else 1
+    ar, ai, mv, prim, _yv, _qv, _dual = _param_problems(n, da, d // da, False)
+    for i in range(n):
+        a = w[i] * herm(rhos[i])
+        ar[i].value, ai[i].value = np.ascontiguousarray(a.real), np.ascontiguousarray(a.imag)
     if not _solve(prim):
         return None
     ms = [psd_clip(m.value) for m in mv]
@@ -278,15 +285,47 @@ def ppt_feasibility(ms, da, db):
     return neg, negpt, dev, nonherm
 
 
-def ppt_bracket(rhos, w, da, db):
-    """Certified {"L","U","M"} for the optimum over PPT POVMs; None on solver failure."""
+_PROBLEMS: dict = {}
+
+
+def _param_problems(n, da, db, ppt: bool):
+    """cvxpy primal and dual problems for n states on C^da (x) C^db with the weighted states w_i rho_i as PARAMETERS (real and
+    imaginary parts), built once per shape and process so that cvxpy's canonicalisation is paid once (DPP)."""
     import cvxpy as cp
 
+    key = (n, da, db, ppt)
+    if key in _PROBLEMS:
+        return _PROBLEMS[key]
+    d = da * db
+    ar = [cp.Parameter((d, d)) for _ in range(n)]  # Re(w_i rho_i)
+    ai = [cp.Parameter((d, d)) for _ in range(n)]  # Im(w_i rho_i)
+    mv = [cp.Variable((d, d), hermitian=True) for _ in range(n)]
+    cons = [m >> 0 for m in mv] + [sum(mv) == np.eye(d)]
+    if ppt:
+        cons += [_pt_expr(m, da, db) >> 0 for m in mv]
+    # Re Tr(A M) = sum_ij Re(A_ji) Re(M_ij) - Im(A_ji) Im(M_ij)
+    obj = sum(cp.sum(cp.multiply(ar[i].T, cp.real(mv[i]))) - cp.sum(cp.multiply(ai[i].T, cp.imag(mv[i]))) for i in range(n))
+    prim = cp.Problem(cp.Maximize(obj), cons)
+    yv = cp.Variable((d, d), hermitian=True)
+    if ppt:
+        qv = [cp.Variable((d, d), hermitian=True) for _ in range(n)]
+        dcons = [yv - (ar[i] + 1j * ai[i]) - _pt_expr(qv[i], da, db) >> 0 for i in range(n)] + [q >> 0 for q in qv]
+    else:
+        qv = []
+        dcons = [yv - (ar[i] + 1j * ai[i]) >> 0 for i in range(n)]
+    dual = cp.Problem(cp.Minimize(cp.real(cp.trace(yv))), dcons)
+    _PROBLEMS[key] = (ar, ai, mv, prim, yv, qv, dual)
+    return _PROBLEMS[key]
+
+
+def ppt_bracket(rhos, w, da, db):
+    """Certified {"L","U","M"} for the optimum over PPT POVMs; None on solver failure."""
     n, d = len(rhos), da * db
     rhos = [herm(r) for r in rhos]
-    mv = [cp.Variable((d, d), hermitian=True) for _ in range(n)]
-    cons = [m >> 0 for m in mv] + [_pt_expr(m, da, db) >> 0 for m in mv] + [sum(mv) == np.eye(d)]
-    prim = cp.Problem(cp.Maximize(sum(float(w[i]) * cp.real(cp.trace(rhos[i] @ mv[i])) for i in range(n))), cons)
+    ar, ai, mv, prim, yv, qv, dual = _param_problems(n, da, db, True)
+    for i in range(n):
+        a = w[i] * rhos[i]
+        ar[i].value, ai[i].value = np.ascontiguousarray(a.real), np.ascontiguousarray(a.imag)
     if not _solve(prim):
         return None
     ms, t = repair_ppt_povm([m.value for m in mv], da, db)
@@ -295,10 +334,6 @@ def ppt_bracket(rhos, w, da, db):
         return None
     low = success(rhos, w, ms) - ARITH
 
-    yv = cp.Variable((d, d), hermitian=True)
-    qv = [cp.Variable((d, d), hermitian=True) for _ in range(n)]
-    dual = cp.Problem(cp.Minimize(cp.real(cp.trace(yv))),
-                      [yv - float(w[i]) * rhos[i] - _pt_expr(qv[i], da, db) >> 0 for i in range(n)] + [q >> 0 for q in qv])
     cands = []
     if _solve(dual):
         cands.append((herm(yv.value), [psd_clip(q.value) for q in qv]))
